@@ -506,8 +506,19 @@ class PE:
                             v = ("rv", inner) if inner is not None else None
                         if v is not None:
                             env2[i + 1] = v
-                sub = PE(cb, None, max_states=20000, eq_ok=self.eq_ok, inline=self.inline, crate=self.crate)
-                rr = sub.run(env=env2)
+                depth = getattr(self, "_inline_depth", 0)
+                if depth > 6:
+                    return UNK
+                sub = PE(cb, self.call_model if self.model_in_closures else None, max_states=20000,
+                         eq_ok=self.eq_ok, inline=self.inline, crate=self.crate)
+                sub.model_in_closures = self.model_in_closures
+                sub._inline_depth = depth + 1
+                try:
+                    rr = sub.run(env=env2)
+                except RuntimeError:
+                    return UNK
+                if self.model_in_closures and not rr.returns and not rr.panics and rr.states > 0:
+                    return ("never",)      # the callee cannot return under this model: the path ends here
                 vals = {v for _, v in rr.returns}
                 if len(vals) == 1:
                     v = vals.pop()
@@ -660,6 +671,10 @@ class PE:
                 return ("b", x != x)
             if tail == "is_infinite":
                 return ("b", x in (math.inf, -math.inf))
+            if tail == "is_normal":
+                return ("b", math.isfinite(x) and abs(x) >= 2.2250738585072014e-308)
+            if tail == "is_subnormal":
+                return ("b", x != 0.0 and math.isfinite(x) and abs(x) < 2.2250738585072014e-308)
             if tail == "abs":
                 return ("f", abs(x))
             if tail == "trunc":
@@ -948,8 +963,14 @@ class PE:
                             av = argvals[ai]
                             if av is not None and av[0] == "ref":
                                 self._forget(env, av[1], list(av[2]))
-                    self._write(env, c.dest, val)
-                    if c.target is None:
+                    if val == ("never",):
+                        continue_path = False
+                    else:
+                        continue_path = True
+                        self._write(env, c.dest, val)
+                    if not continue_path:
+                        nxt = []
+                    elif c.target is None:
                         res.panics.add(bb)
                         nxt = []
                     else:
